@@ -357,6 +357,36 @@ def golden_numpy(x, zp_in, zp_out, shift, mx, mn, dr, mult):
     return int(r[0])
 
 
+def case_rescale_channels(case):
+    """kernel.rescale with one multiplier / shift per output channel: a body has no notion of the channel, so the
+    expansion must not apply one channel's parameters to all of them (leaving the op in place is fine)."""
+    from xdsl.dialects import builtin, linalg, test
+    from xdsl.dialects.builtin import IntegerType, MemRefType, i32
+    from xdsl.ir import Block, Region
+    from xdsl.ir.affine import AffineMap
+
+    from snaxc.dialects import kernel
+    from snaxc.transforms.convert_kernel_to_linalg import ConvertKernelToLinalg
+
+    mults, shifts, out_w = case
+
+    def fn():
+        b = Block(arg_types=[i32, IntegerType(out_w)])
+        r = kernel.RescaleOp(b.args[0], IntegerType(out_w), 1, 2, list(mults), list(shifts), 127, -128, False)
+        b.add_ops([r, linalg.YieldOp(r)])
+        srcs = [test.TestOp(result_types=[MemRefType(i32, [2, 8])]), test.TestOp(result_types=[MemRefType(IntegerType(out_w), [2, 8])])]
+        m = builtin.AffineMapAttr(AffineMap.identity(2))
+        g = linalg.GenericOp([srcs[0].res[0]], [srcs[1].res[0]], Region(b), [m, m], [linalg.IteratorTypeAttr.parallel()] * 2)
+        mod = builtin.ModuleOp([*srcs, g])
+        ConvertKernelToLinalg().apply(xshim.make_ctx(), mod)
+        left = [o for o in find_generic(mod).body.block.ops if o.name == "kernel.rescale"]
+        per_channel = len(set(mults)) > 1 or len(set(shifts)) > 1
+        eng().oblige("rescale:per_channel_parameters_not_collapsed_onto_one_channel", z3.BoolVal(bool(left) or not per_channel),
+                     dict(multipliers=list(mults), shifts=list(shifts), expanded=not left))
+
+    return run_case(fn, lambda f: replay_pinned(fn, f), signature=lambda f, v: f["name"], sample=dict(case=str(case)), key=str(case))
+
+
 def case_rescale(case):
     from xdsl.dialects import arith, builtin, linalg, test
     from xdsl.dialects.builtin import IntegerType, MemRefType, i8, i32
@@ -756,6 +786,8 @@ def run(chk):
     kcases += [("qmac", (8, 8, 32, 32, 32), None, wr) for wr in ((0, 1, 3, 2), (1, 0, 2, 3), (0, 0, 2, 2))]
     if only in (None, "meaning"):
         chk.add_results("kernel_expansion_vs_meaning", pmap(case_kernel_meaning, kcases))
+    if only in (None, "rescale"):
+        chk.add_results("rescale_per_channel_parameters", pmap(case_rescale_channels, [((5, 5), (9, 9), 8), ((5, 7), (9, 9), 8), ((5, 5, 5), (9, 10, 9), 32), ((3, 4, 5, 6), (7, 8, 9, 10), 8)]))
     if only in (None, "rescale"):
         chk.add_results("rescale_expansion_vs_golden_model", pmap(case_rescale, [(dr, w) for dr in (0, 1) for w in (8, 32)]))
     cases = []
